@@ -285,6 +285,28 @@ func init() {
 		fmt.Fprintf(&e.out, "def reserve_updateCacheUsed : List String := %s\n", lst(argsOf("Plugin", "Reserve", "updateCacheUsed")))
 		fmt.Fprintf(&e.out, "def unreserve_updateCacheUsed : List String := %s\n", lst(argsOf("Plugin", "Unreserve", "updateCacheUsed")))
 
+		// which annotation each allocation variable is parsed from: "<var> <- <arg>"
+		sources := func(recv, name string) []string {
+			var out []string
+			fd := e.funcDecl(d, recv, name)
+			if fd == nil {
+				return out
+			}
+			ast.Inspect(fd.Body, func(n ast.Node) bool {
+				as, ok := n.(*ast.AssignStmt)
+				if !ok || len(as.Rhs) != 1 || len(as.Lhs) == 0 {
+					return true
+				}
+				if c, ok := as.Rhs[0].(*ast.CallExpr); ok && selName(c.Fun) == "GetDeviceAllocations" && len(c.Args) == 1 {
+					out = append(out, types.ExprString(as.Lhs[0])+" <- "+types.ExprString(c.Args[0]))
+				}
+				return true
+			})
+			return out
+		}
+		fmt.Fprintf(&e.out, "def updatePod_allocSources : List String := %s\n", lst(sources("nodeDeviceCache", "updatePod")))
+		fmt.Fprintf(&e.out, "def deletePod_allocSources : List String := %s\n", lst(sources("nodeDeviceCache", "deletePod")))
+
 		// the guard of the release half of updatePod
 		relGuard := ""
 		if fd := e.funcDecl(d, "nodeDeviceCache", "updatePod"); fd != nil {
